@@ -19,4 +19,4 @@ one() {
 }
 export -f one; export props
 : > ${REFRUN_DETAILS:-/tmp/refrun_details.txt}
-printf '%s\n' "$@" | xargs -P 5 -I{} bash -c 'one {}' | sort
+printf '%s\n' "$@" | xargs -P ${REFRUN_JOBS:-5} -I{} bash -c 'one {}' | sort
